@@ -395,6 +395,11 @@ func (fc *fnCtx) runDefers(st *State, fr *frame, k func(*State)) {
 		}
 		spec, recv, args, resT := fc.calleeSpec(st, fr, d)
 		if spec == nil {
+			// a contract-less function of the repository is executed in place, like an ordinary call
+			if callee := d.Common().StaticCallee(); callee != nil && fc.e.inRepo(callee) && len(originOf(callee).Blocks) > 0 {
+				fc.inline(st, &nf, fmt.Sprintf("defer%d", i+1), originOf(callee), recv, args, func(st *State, _ Val) { run(st, i-1) })
+				return
+			}
 			fc.e.externals["deferred call without contract in "+fr.key] = true
 			run(st, i-1)
 			return
